@@ -7,6 +7,13 @@ class EvalStack:
     def clear(self):
         self._stack.clear()
 
+    def height(self):
+        return len(self._stack)
+
+    def trim(self, height):
+        while len(self._stack) > height:
+            self._stack.pop()
+
     @property
     def top(self):
         return self.below(0)
